@@ -18,7 +18,7 @@ CONSTANTS
   AllowKF = {}
   KFInitOpts = TRUE
   KFV1Hist = TRUE
-  MaxOps = 7
+  MaxOps = 6
   Balanced = FALSE
   EmitMode = "none"
   BigSeries = {"s2"}
